@@ -48,6 +48,14 @@ pub fn c01(ctx: &mut Ctx) {
     let n = ctx.tier.pick(50_000, 1_500_000);
     ctx.search("ps-wake-only", move || ps::case_strategy(g), n, true, ps_eval(c01_nontrivial));
     if ctx.failed() { return; }
+    // subscribers that fail: the ones that stay healthy still get everything
+    let g = PsGen { faults: true, close: false, wake_only: false, max_len: 60 };
+    ctx.search("ps-with-failing-siblings", move || ps::case_strategy(g), ctx.tier.pick(60_000, 2_000_000), true, |c: &PsCase| {
+        crate::core::watchdog::tick();
+        let (o, f) = ps::run_case(c);
+        match o { Outcome::Pass { .. } => Outcome::pass(ps_labels(&f), f.faults_observed_with_healthy_sibling > 0 && f.subs_received > 0), o => o }
+    });
+    if ctx.failed() { return; }
     // bounded-exhaustive small scope
     let alpha = ps::small_alphabet(false, false);
     let maxlen = ctx.tier.pick(6, 8);
